@@ -202,7 +202,7 @@ func (valdec mapDecoder) decodeObjectAsMap(dec *Decoder, p interface{}, tag byte
 	structInfo := dec.getStructInfo(index)
 	mp := reflect2.PtrOf(p)
 	count := len(structInfo.names)
-	valdec.t.UnsafeSet(mp, valdec.t.UnsafeMakeMap(count))
+	valdec.t.UnsafeSet(mp, valdec.t.UnsafeMakeMap(dec.prealloc(count)))
 	dec.AddReference(p)
 	keyPtr := func(name string) unsafe.Pointer {
 		if valdec.kt.Kind() == reflect.Interface {
